@@ -680,7 +680,15 @@ fn supervise(prop: &str, tier: Tier) -> i32 {
             return 2;
         }
     };
-    if code == 0 && (tier == Tier::Thorough || std::env::var("VERIF_MIRI").map(|v| v == "1").unwrap_or(false)) {
+    // Miri leg: always in thorough; in quick by default for C03 (whose statement includes memory
+    // safety), opt-in for C05 (VERIF_MIRI=1); VERIF_MIRI=0 switches it off
+    let miri_env = std::env::var("VERIF_MIRI").ok();
+    let want_miri = match miri_env.as_deref() {
+        Some("0") => false,
+        Some("1") => true,
+        _ => tier == Tier::Thorough || prop == "C03",
+    };
+    if code == 0 && want_miri {
         let c = miri_leg(prop, tier);
         if c != 0 {
             code = c;
@@ -768,7 +776,7 @@ fn miri_leg(prop: &str, tier: Tier) -> i32 {
     }
     let seed = env_u64("VERIF_SEED", 1);
     let sim = root().join("sim");
-    let n: u64 = env_u64("VERIF_MIRI_RUNS", if tier == Tier::Quick { 150 } else { 1500 });
+    let n: u64 = env_u64("VERIF_MIRI_RUNS", if tier == Tier::Quick { if prop == "C03" { 96 } else { 150 } } else { 1500 });
     let jobs = env_u64("VERIF_JOBS", 16).max(1);
     let started = Instant::now();
     let mut status = "ok".to_string();
